@@ -459,6 +459,10 @@ type FuncContract struct {
 	Trusted  bool // contract assumed, body not verified
 	Pure     bool // result is a function of arguments (and read heap)
 	Safe     bool // prove absence of run-time panics too
+	Deterministic bool // C10: must not return, store into its results, or encode an unordered collection
+	Concurrent bool // this function literal runs concurrently with its siblings: appends to captured variables are unordered
+	BagResults []int // results that are declared unordered collections (callers must sort them)
+	BagParams []string
 	ProtocolOnly []string // properties under which only tagged (protocol) obligations of this function are generated
 	Uses     []string // named axiom groups this function's proof may use
 	Reveals  []string // opaque predicates whose definition this function's proof may use
@@ -494,7 +498,7 @@ func NewContractSet() *ContractSet {
 }
 
 var clauseKeywords = map[string]bool{"pred": true, "func": true, "requires": true, "ensures": true, "loop": true,
-	"modifies": true, "ufunc": true, "axiom": true, "lemma": true, "noframe": true, "opaque": true, "reveal": true, "uses": true, "protect": true, "protocol-only": true, "group": true, "include": true, "end": true, "trusted": true, "pure": true, "safe": true, "decreases": true, "let": true, "ghost": true, "init": true, "call": true, "package": true}
+	"modifies": true, "ufunc": true, "axiom": true, "lemma": true, "noframe": true, "opaque": true, "reveal": true, "uses": true, "protect": true, "protocol-only": true, "deterministic": true, "concurrent": true, "bag": true, "group": true, "include": true, "end": true, "trusted": true, "pure": true, "safe": true, "decreases": true, "let": true, "ghost": true, "init": true, "call": true, "package": true}
 
 // ParseContractFile reads the //@ lines of one file.
 func (cs *ContractSet) ParseContractFile(path, pkgPath string) error {
@@ -703,6 +707,23 @@ func (cs *ContractSet) ParseContractFile(path, pkgPath string) error {
 				cur.Trusted = true
 			case "noframe":
 				cur.NoFrame = true
+			case "deterministic":
+				cur.Deterministic = true
+			case "concurrent":
+				cur.Concurrent = true
+			case "bag":
+				// bag result N | bag param NAME
+				if len(fields) == 3 && fields[1] == "result" {
+					n, err := strconv.Atoi(fields[2])
+					if err != nil {
+						return fmt.Errorf("%s:%d: bag result N", path, it.n)
+					}
+					cur.BagResults = append(cur.BagResults, n)
+				} else if len(fields) == 3 && fields[1] == "param" {
+					cur.BagParams = append(cur.BagParams, fields[2])
+				} else {
+					return fmt.Errorf("%s:%d: bag result N | bag param NAME", path, it.n)
+				}
 			case "protocol-only":
 				cur.ProtocolOnly = append(cur.ProtocolOnly, strings.Fields(rest)...)
 			case "uses":
@@ -880,6 +901,9 @@ func (cs *ContractSet) finalize() {
 		}
 		if fc.Decreases != nil {
 			all = append(all, fc.Decreases)
+		}
+		if fc.Deterministic {
+			fc.props["C10"] = true
 		}
 		for _, c := range all {
 			c.owner = fc
